@@ -8,7 +8,7 @@
 //! based synchronisation).  Each model states the contract it relies on.
 #![allow(missing_docs, dead_code, clippy::all)]
 
-use std::sync::{Arc, Mutex};
+use std::sync::Arc;
 
 use log::{Level, LevelFilter, Record};
 
@@ -224,7 +224,7 @@ fn yield_point(kind: u8) {
 }
 
 pub struct ArcSwap<T> {
-    cell: Mutex<Arc<T>>,
+    cell: std::sync::Mutex<Arc<T>>,
 }
 
 impl<T> std::fmt::Debug for ArcSwap<T> {
@@ -236,7 +236,7 @@ impl<T> std::fmt::Debug for ArcSwap<T> {
 impl<T> ArcSwap<T> {
     pub fn new(v: Arc<T>) -> Self {
         ArcSwap {
-            cell: Mutex::new(v),
+            cell: std::sync::Mutex::new(v),
         }
     }
 
@@ -353,5 +353,95 @@ pub fn clock(real: chrono::DateTime<chrono::Local>) -> chrono::DateTime<chrono::
             _ => real,
         },
         None => real,
+    }
+}
+
+// --------------------------------------------------------------------------
+// E8: stand-in for the two items of `libc` used by the console writer.
+// --------------------------------------------------------------------------
+
+#[allow(non_upper_case_globals)]
+pub mod fake_libc {
+    pub const STDOUT_FILENO: i32 = 1;
+    pub const STDERR_FILENO: i32 = 2;
+    /// what `isatty` answers per file descriptor (set by the harness)
+    pub static mut ISATTY: [i32; 3] = [0; 3];
+
+    pub unsafe fn isatty(fd: i32) -> i32 {
+        ISATTY[fd as usize]
+    }
+}
+
+// --------------------------------------------------------------------------
+// E3: stand-in for `parking_lot::Mutex` (whose lock path reaches thread-local
+// state the model checker cannot compile).  Contract relied upon: mutual
+// exclusion.  `lock` announces itself to the installed yield function before
+// acquiring and the guard announces the release when dropped, so that a
+// harness can run "another thread's" complete operation at exactly the points
+// where the lock is free.
+// --------------------------------------------------------------------------
+
+pub const Y_BEFORE_LOCK: u8 = 4;
+pub const Y_AFTER_UNLOCK: u8 = 5;
+
+pub struct Mutex<T> {
+    inner: std::sync::Mutex<T>,
+}
+
+pub struct MutexGuard<'a, T> {
+    guard: Option<std::sync::MutexGuard<'a, T>>,
+}
+
+impl<T> Mutex<T> {
+    pub fn new(v: T) -> Self {
+        Mutex {
+            inner: std::sync::Mutex::new(v),
+        }
+    }
+
+    pub fn lock(&self) -> MutexGuard<'_, T> {
+        yield_point(Y_BEFORE_LOCK);
+        let guard = match self.inner.lock() {
+            Ok(g) => g,
+            Err(poisoned) => poisoned.into_inner(),
+        };
+        MutexGuard { guard: Some(guard) }
+    }
+}
+
+impl<'a, T> std::ops::Deref for MutexGuard<'a, T> {
+    type Target = T;
+    fn deref(&self) -> &T {
+        self.guard.as_ref().unwrap()
+    }
+}
+
+impl<'a, T> std::ops::DerefMut for MutexGuard<'a, T> {
+    fn deref_mut(&mut self) -> &mut T {
+        self.guard.as_mut().unwrap()
+    }
+}
+
+impl<'a, T> Drop for MutexGuard<'a, T> {
+    fn drop(&mut self) {
+        // release first, then let the harness run
+        self.guard = None;
+        yield_point(Y_AFTER_UNLOCK);
+    }
+}
+
+// --------------------------------------------------------------------------
+// E7: constant stand-ins for the current thread (std's `thread::current()` and
+// the `thread-id` crate read lazily initialised thread-local state).
+// --------------------------------------------------------------------------
+
+pub const FAKE_THREAD_ID: usize = 7;
+pub const FAKE_THREAD_NAME: &str = "main";
+
+pub struct FakeThread;
+
+impl FakeThread {
+    pub fn name(&self) -> Option<&str> {
+        Some(FAKE_THREAD_NAME)
     }
 }
